@@ -251,6 +251,14 @@ def one_case(acc, base, tags, fields, obj, src, cexpr, rexpr, items):
         if ignore_conf and multi_spelling:
             acc.extra["winner_undocumented_under_ignore_alias_conflicts"] += 1
             trivial = False
+            # which spelling wins is not documented -- but the *key sets* are: when both strategies accept, the same field
+            # names and the same extra keys are present (a second spelling of a field is never an extra key)
+            if a_st == "ok" and b_st == "ok" and base not in ("func", "funcpos"):
+                ka = sorted(map(str, c05.observe(None, a_p, fields)[0]))
+                kb = sorted(map(str, c05.observe(None, b_p, fields)[0]))
+                if ka != kb:
+                    viol("keys", f"both accept but the key sets differ: data-first {ka} field-first {kb}")
+                    return
             continue
         if a_st != b_st:
             trivial = False
